@@ -7,7 +7,6 @@ import (
 	"strings"
 	"testing"
 
-	abci "github.com/gnolang/gno/tm2/pkg/bft/abci/types"
 	"pgregory.net/rapid"
 	"verif/vk"
 )
@@ -704,32 +703,25 @@ type c07Outcome struct {
 }
 
 func c07Exec(ctx *vk.Ctx, c c07Case) error {
-	ch, err := rkNew()
-	if err != nil {
-		return fmt.Errorf("harness: %v", err)
-	}
-	must := func(r abci.ResponseDeliverTx, err error, what string) error {
-		if err != nil {
-			return fmt.Errorf("harness: %v", err)
-		}
-		if r.Error != nil {
-			return fmt.Errorf("harness: %s failed: %s", what, rkErr(r))
-		}
-		return nil
-	}
-	r, err := ch.Deploy(c07Vic, fmt.Sprintf(c07VicSrc, c.Params[0], c.Params[1], c.Params[2]))
-	if e := must(r, err, "victim deployment"); e != nil {
-		return e
-	}
-	r, err = ch.Deploy(c07Mid, c07MidSrc)
-	if e := must(r, err, "mid deployment"); e != nil {
-		return e
-	}
+	var ch *rkChain
 	vicHex := rkPkgHex(c07Vic)
 	var dump0 string
 	var base map[string]string
-	rebase := func() error {
+	// setup (re)creates a chain with a pristine victim and takes the baseline.
+	setup := func() error {
 		var err error
+		ch, err = rkNew()
+		if err != nil {
+			return fmt.Errorf("harness: %v", err)
+		}
+		r, err := ch.Deploy(c07Vic, fmt.Sprintf(c07VicSrc, c.Params[0], c.Params[1], c.Params[2]))
+		if err != nil || r.Error != nil {
+			return fmt.Errorf("harness: victim deployment failed: %v %s", err, rkErr(r))
+		}
+		r, err = ch.Deploy(c07Mid, c07MidSrc)
+		if err != nil || r.Error != nil {
+			return fmt.Errorf("harness: mid deployment failed: %v %s", err, rkErr(r))
+		}
 		dump0, err = ch.QStr(c07Vic, "Dump()")
 		if err != nil {
 			return fmt.Errorf("harness: victim Dump(): %v", err)
@@ -738,10 +730,9 @@ func c07Exec(ctx *vk.Ctx, c c07Case) error {
 		if err != nil {
 			return fmt.Errorf("harness: %v", err)
 		}
-		keep := base
 		base = map[string]string{}
 		for _, id := range snap0.Order {
-			if strings.HasPrefix(id, vicHex+":") && (keep == nil || keep[id] != "") {
+			if strings.HasPrefix(id, vicHex+":") {
 				m, err := rkMasked(snap0.Objs[id])
 				if err != nil {
 					return fmt.Errorf("harness: %v", err)
@@ -754,7 +745,7 @@ func c07Exec(ctx *vk.Ctx, c c07Case) error {
 		}
 		return nil
 	}
-	if err := rebase(); err != nil {
+	if err := setup(); err != nil {
 		return err
 	}
 	check := func(i int, a c07Atk, src string, out c07Outcome) error {
@@ -839,7 +830,7 @@ func c07Exec(ctx *vk.Ctx, c c07Case) error {
 		if err := check(i, a, src, out); err != nil {
 			if c07IsTopLevelCb(a, run) && !out.Failed && ctx.Known(c07KeyTopLevel) {
 				ctx.Class("known:" + c07KeyTopLevel)
-				if err := rebase(); err != nil { // resynchronise with the changed victim
+				if err := setup(); err != nil { // resynchronise: fresh chain, pristine victim
 					return err
 				}
 				continue
